@@ -14,7 +14,8 @@ HARNESS_BINS = ["c19", "c19e"]
 SHRINK_KEEP = ("new",)
 RULE = ("cases: random histories of the sans-io UdpManager over the simulator's alphabet (client datagram, backend "
         "datagram, resolution incl. stale/duplicate ids, SetCluster flipping the affinity mode and the per-flow knobs, "
-        "SetMaxFlows incl. below the live count, SetMaxRx, Drain, clock advance + timeout, abort, close_all) from small "
+        "SetMaxFlows incl. below the live count, SetMaxRx, Drain, clock advance + timeout, the shell's one-shot timer firing "
+        "at or up to 50 ms before the armed deadline (op fire), abort, close_all) from small "
         "colliding pools: 4 client IPs (one V6) x 3 ports (incl. port 0, which collides with the 2-tuple key), 4 "
         "backends, payload sizes 0, 1, max_rx-1, max_rx, max_rx+1. Non-trivial and distinct: >=2 flows admitted, >=1 "
         "datagram forwarded to a backend, >=1 reply returned to a client and >=1 flow torn down; distinct by op text.")
@@ -264,6 +265,14 @@ def extra_stage(tier, rng, work):
                                   ["send", 2, b"a3"]])]
     cases += [e2e_case(rng, "e%d" % i) for i in range(120)]
     outs, problems = vlib.run_harness("c19e", cases, os.path.join(work, "e2e"), "release", timeout=1200, shards=4)
+    # real sockets and real time: a scenario that fails is run a second time, alone, and only
+    # counts if it fails again (the deterministic twin of the timer scenarios is op `fire` in-process)
+    suspects = [c for c in cases if outs.get(c.id) is None or outs[c.id]["viol"] or outs[c.id]["panic"] is not None]
+    retried = len(suspects)
+    for c in suspects:
+        o2, p2 = vlib.run_harness("c19e", [c], os.path.join(work, "e2e_retry"), "release", timeout=300, shards=1)
+        if c.id in o2 and not o2[c.id]["viol"] and o2[c.id]["panic"] is None:
+            outs[c.id] = o2[c.id]
     viols, failures = [], list(problems)
     delivered = 0
     for c in cases:
@@ -276,12 +285,13 @@ def extra_stage(tier, rng, work):
         for (vc, vt) in o["viol"]:
             viols.append((c, vc, vt))
         delivered += sum(1 for ob in o["obs"] if len(ob) >= 4 and ob[0] == "send")
-    return dict(failures=failures, viols=viols, coverage=dict(e2e_cases=len(cases), e2e_datagrams_delivered=delivered))
+    return dict(failures=failures, viols=viols, coverage=dict(e2e_cases=len(cases), e2e_datagrams_delivered=delivered, e2e_retried=retried))
 
 
 LEVEL_TEXT = ("Machine-checked proof (Coq 8.16) over an executable model of the sans-io UDP flow core (UdpManager + UdpFlow "
               "+ exact slab free list): the manager's invariants as an inductive invariant over every input history, "
-              "stickiness, isolation, the admission bound and exactly-once teardown as theorems over all histories; the "
+              "stickiness, isolation, the admission bound, exactly-once teardown and the one-shot-timer contract with the "
+              "shell as theorems over all histories; the "
               "model is tied to lib/src/protocol/udp on every run by a source translator and a differential "
               "correspondence run of the real UdpManager against the extracted model, with the property's own oracle "
               "evaluated on the implementation's output stream.")
